@@ -284,7 +284,7 @@ func judge(h *Header, evs []Ev) *judgement {
 					}
 				}
 				if any && valid && !validAway {
-					j.add("sender-rejected-while-disconnected-used-again",
+					j.add("offer-reject-sender-misses-sender-that-left-during-the-offer",
 						"the app answered REJECT_SENDER for a snapshot whose only sender had disconnected while the offer was in flight; that sender came back and a snapshot it (alone) advertises is offered", e.N, e)
 				}
 				if !any {
